@@ -65,7 +65,7 @@ fn any_text3() -> ([u8; 3], [u32; 3], usize) {
 
 //@ id: c06_h2_str_lengths
 //@ property: C06
-//@ tier: quick
+//@ tier: off
 //@ encodes: BuiltinRuntime::invoke (dispatch), impls::{str_scalar_length, str_byte_length}, Utf8String::{scalar_len, byte_len}
 //@ sym: a well-formed UTF-8 text of 3 bytes in every scalar layout (1+1+1, 1+2, 2+1, 3) with symbolic content
 //@ oracle: scalar count taken from the layout: scalar length counts scalars (not bytes), byte length is 3; both return Int64
@@ -240,15 +240,39 @@ fn parse_int_check<const N: usize>() {
     std::mem::forget(some_body);
 }
 
-//@ id: c06_h2_str_parse_int_b3
+//@ id: c06_h2_str_parse_int_b2
 //@ property: C06
 //@ tier: quick
+//@ encodes: BuiltinRuntime::invoke (dispatch), impls::str_parse_int_branch, <i64 as FromStr>::from_str, OptionalValueBranch::select
+//@ sym: ASCII text of 0..=2 symbolic bytes (empty, lone sign, sign + digit, two digits, junk)
+//@ oracle: independent recogniser of [+-]?[0-9]+ with its value; `none` exactly when it rejects, else `some` applied to the value
+//@ bounds: <= 2 bytes, ASCII; unwind 7
+//@ stubs: as c05_h3_arith_int8
+//@ replay: playback
+//@ id: c06_h2_str_parse_int_b3
+//@ property: C06
+//@ tier: thorough
+//@ timeout: 2400
 //@ encodes: BuiltinRuntime::invoke (dispatch), impls::str_parse_int_branch, <i64 as FromStr>::from_str, OptionalValueBranch::select
 //@ sym: ASCII text of 0..=3 symbolic bytes (every sign/digit/junk arrangement)
 //@ oracle: independent recogniser of [+-]?[0-9]+ with its value; `none` exactly when it rejects, else `some` applied to the value
 //@ bounds: <= 3 bytes, ASCII; unwind 7
 //@ stubs: as c05_h3_arith_int8
 //@ replay: playback
+#[kani::proof]
+#[kani::unwind(7)]
+#[kani::stub(std::hash::RandomState::new, fixed_random_state)]
+#[kani::stub(random_int, no_random_int)]
+#[kani::stub(<SemValue as std::clone::Clone>::clone, clone_thunk_only)]
+fn c06_h2_str_parse_int_b2() {
+    let len: u8 = kani::any();
+    match len {
+        | 0 => parse_int_check::<0>(),
+        | 1 => parse_int_check::<1>(),
+        | _ => parse_int_check::<2>(),
+    }
+}
+
 #[kani::proof]
 #[kani::unwind(7)]
 #[kani::stub(std::hash::RandomState::new, fixed_random_state)]
@@ -495,7 +519,7 @@ fn std_io_case(lo: u8, hi: u8) {
 
 //@ id: c06_h2_std_io_read_write
 //@ property: C06
-//@ tier: quick
+//@ tier: off
 //@ encodes: BuiltinRuntime::invoke (dispatch), impls::{io_read_all, io_write_all, io_flush, io_close_reader, io_close_writer, write_str, write_line, read_line, read_till_eof, read_line_as_int_branch, arg_fold}, ReaderIo::run, WriterIo::run, HostContinuation::{force, one}, HostRuntime::{close_reader, close_writer} on the standard handles
 //@ sym: which of the roles io_read_all, io_write_all, io_flush (constant call sites chosen by the solver); payload of 3 symbolic bytes for the write roles; standard input empty, argv empty
 //@ oracle: on the standard handles each role consumes exactly its declared arguments and continues with its *success* continuation (never the error one) applied to the declared payload: read_all -> empty bytes, write_all/write_str/write_line -> the bytes arrive on the output in order, flush/close -> success forced, read_line/read_till_eof -> the empty string, read_line_as_int -> the failure continuation (empty line is no number), arg_fold -> the empty continuation
@@ -513,7 +537,7 @@ fn c06_h2_std_io_read_write() {
 
 //@ id: c06_h2_std_io_close_write_str
 //@ property: C06
-//@ tier: quick
+//@ tier: off
 //@ encodes: BuiltinRuntime::invoke (dispatch), impls::{io_read_all, io_write_all, io_flush, io_close_reader, io_close_writer, write_str, write_line, read_line, read_till_eof, read_line_as_int_branch, arg_fold}, ReaderIo::run, WriterIo::run, HostContinuation::{force, one}, HostRuntime::{close_reader, close_writer} on the standard handles
 //@ sym: which of the roles io_close_reader, io_close_writer, write_str (constant call sites chosen by the solver); payload of 3 symbolic bytes for the write roles; standard input empty, argv empty
 //@ oracle: on the standard handles each role consumes exactly its declared arguments and continues with its *success* continuation (never the error one) applied to the declared payload: read_all -> empty bytes, write_all/write_str/write_line -> the bytes arrive on the output in order, flush/close -> success forced, read_line/read_till_eof -> the empty string, read_line_as_int -> the failure continuation (empty line is no number), arg_fold -> the empty continuation
@@ -531,7 +555,7 @@ fn c06_h2_std_io_close_write_str() {
 
 //@ id: c06_h2_std_io_legacy_reads
 //@ property: C06
-//@ tier: quick
+//@ tier: off
 //@ encodes: BuiltinRuntime::invoke (dispatch), impls::{io_read_all, io_write_all, io_flush, io_close_reader, io_close_writer, write_str, write_line, read_line, read_till_eof, read_line_as_int_branch, arg_fold}, ReaderIo::run, WriterIo::run, HostContinuation::{force, one}, HostRuntime::{close_reader, close_writer} on the standard handles
 //@ sym: which of the roles read_line, read_till_eof, read_line_as_int, arg_list (constant call sites chosen by the solver); payload of 3 symbolic bytes for the write roles; standard input empty, argv empty
 //@ oracle: on the standard handles each role consumes exactly its declared arguments and continues with its *success* continuation (never the error one) applied to the declared payload: read_all -> empty bytes, write_all/write_str/write_line -> the bytes arrive on the output in order, flush/close -> success forced, read_line/read_till_eof -> the empty string, read_line_as_int -> the failure continuation (empty line is no number), arg_fold -> the empty continuation
